@@ -426,6 +426,29 @@ def _body(src, name):
     return " ".join(body.split())
 
 
+def _assign_bodies(src):
+    """bodies of the out-of-class definitions `IntrusivePtr<T>::operator=(...) { ... }` -> {parameter text: body}"""
+    out = {}
+    for m in re.finditer(r"IntrusivePtr\s*<\s*T\s*>\s*::\s*operator\s*=\s*\(([^)]*)\)\s*\{", src):
+        i, depth = m.end(), 1
+        while i < len(src) and depth:
+            depth += {"{": 1, "}": -1}.get(src[i], 0)
+            i += 1
+        if not depth:
+            out[" ".join(m.group(1).split())] = " ".join(src[m.end():i - 1].split())
+    return out
+
+
+def _release_last(body):
+    """every `->refDec()` of the body comes (textually) after the handle's own pointer was stored or swapped: the old
+    object is released when the handle already designates the new one (model: `swapDec` / `moveDec`; theorem never_stale)"""
+    st = re.search(r"(?<![\w.>])ptr\s*=(?!=)|std::swap\s*\(\s*ptr\b|swap\s*\(\s*ptr\b", body)
+    for d in re.finditer(r"->\s*refDec\s*\(\s*\)", body):
+        if st is None or d.start() < st.start():
+            return False
+    return True
+
+
 def regenerate(rep):
     """Facts the model takes from the source text (DESIGN 7 C08 'T-table'): returns a failure dict or None."""
     p = os.path.join(core.REPO, "rkcommon", "memory", "IntrusivePtr.h")
@@ -437,11 +460,14 @@ def regenerate(rep):
     facts["refInc_single_rmw"] = bool(inc is not None and any(re.fullmatch(r, inc) for r in _INC_OK))
     facts["refDec_single_rmw_delete_at_zero"] = bool(dec is not None and any(re.fullmatch(r, dec) for r in _DEC_OK))
     facts["useCount_is_load"] = bool(use is not None and re.fullmatch(r"return\s+refCounter(\s*\.\s*load\s*\(\s*\))?\s*;", use))
+    ab = _assign_bodies(src)
+    facts["three_assignment_operators"] = len(ab) == 3
+    facts["assignments_release_old_object_last"] = bool(ab) and all(_release_last(b) for b in ab.values())
     rep.coverage["source_facts"] = facts
     bad = [k for k, v in facts.items() if not v]
     if bad:
         return dict(kind="source-fact-mismatch", file="rkcommon/memory/IntrusivePtr.h", failed=bad,
-                    bodies=dict(refInc=inc, refDec=dec, useCount=use),
+                    bodies=dict(refInc=inc, refDec=dec, useCount=use, assignments=ab),
                     note="the model's atomic steps assume these facts; the proofs no longer apply to this source")
     return None
 
@@ -455,7 +481,9 @@ MANIFEST = dict(
           "address reuse; self-assignment and self-move leave the state unchanged.  The model is tied to the code by running the same random "
           "histories (single-threaded, 2-4 real threads, and barrier-synchronised simultaneous first acquisitions of an object at count 1) through the real classes under ASan/UBSan and TSan and through the compiled model, "
           "diffing use counts, destructor counts, handle targets and comparisons after every operation, plus a source-text check that the "
-          "counter is a std::atomic initialised to 1 and refInc/refDec are single RMWs."),
+          "counter is a std::atomic initialised to 1, refInc/refDec are single RMWs and all three assignment operators release the old object "
+          "after the pointer is stored (never_stale: in every reachable state, also inside a pointee destructor, every handle is null or owns "
+          "a count on a live object; the harness lets destructors inspect all live handles)."),
     note=("Trusted: Lean kernel; axioms propext/Classical.choice/Quot.sound; the hand-written model is tied to the code only by the "
           "correspondence harness and the source-text table; sequential consistency of std::atomic; the usage discipline listed in the "
           "assumptions is a hypothesis of the theorems (encoded as step guards) and is respected by the generators; memory safety of the "
